@@ -707,6 +707,13 @@ PROBES = [
      [ORG, I('c', BASE, T('one', 1)), {'l': 'blk', 'kind': 'ofix', 'plus': 0, 'part': 'begin'},
       I(' ', BASE + 1, T('call', t=BASE + 4096)), {'l': 'blk', 'kind': 'ofix', 'plus': 1, 'part': 'else'},
       I(' ', -1, T('call', t=BASE + 4097)), {'l': 'blk', 'kind': 'ofix', 'plus': 1, 'part': 'end'}, I(' ', BASE + 4, T('one', 3))]),
+    # @ssub=|LD A,1 / @ssub=|LD B,2 / @ssub=!40003 over LD HL,0 / RET: ! names the address where the second instruction of the
+    # overwrite chain is placed; skool2asm -s drops LD B,2 and the RET it overwrites, skool2bin -s keeps LD B,2
+    # (judged by asm-image-vs-bin although the model files the class under the note remove-of-inserted)
+    ('probe:remove-of-inserted:asm-vs-bin', (2, 0),
+     [ORG, I('c', BASE, T('one', 1)), S('ssub', T('ld8', 1), ovw=1),
+      S('ssub', {'k': 'raw', 'a': 0, 'n': 2, 't': -1, 'bs': [6, 2], 'refs': [], 'text': 'LD B,2'}, ovw=1),
+      {'l': 'rem', 'kind': 'ssub', 'a1': BASE + 3, 'a2': BASE + 3}, I(' ', BASE + 1, T('ldhl', t=0)), I(' ', BASE + 4, T('one', 3))]),
     # regression (fixed in 14ba596): pending @defb + an appended instruction made skool2asm raise TypeError
     ('probe:tool-error:skool2asm:data-directive-after-append', (1, 0),
      [ORG, {'l': 'data', 'd': 'defb', 'addr': -1, 'vals': [1, 2]}, S('isub', T('one', 2), app=1), I('c', BASE, T('one', 1)),
